@@ -150,3 +150,22 @@ mod test {
         assert_eq!(restored, saved);
     }
 }
+/// Verification seam: the private `dump` for an arbitrary writer.
+#[cfg(feature = "verif-hooks")]
+pub fn verif_dump<T: Serialize, W: Write>(
+    chunk_writer: &mut W,
+    items: impl IntoIterator<Item = T>,
+) -> Result<(), ExternalChunkError> {
+    dump(chunk_writer, items)
+}
+
+#[cfg(feature = "verif-hooks")]
+impl<T> ExternalChunk<T>
+where
+    T: serde::ser::Serialize + serde::de::DeserializeOwned,
+{
+    /// Verification seam: a chunk reading from an arbitrary byte source.
+    pub fn verif_from_reader(reader: Box<dyn Read>) -> Self {
+        Self { reader, item_type: PhantomData }
+    }
+}
